@@ -160,6 +160,12 @@ func (e *Entry) skipVlogAndSetThreshold(threshold int64) bool {
 	if e.valThreshold == 0 {
 		e.valThreshold = threshold
 	}
+	if e.meta&bitFinTxn > 0 {
+		// The end-of-transaction marker lives only in the WAL and its value (the commit
+		// timestamp) is parsed when the WAL is replayed. It must never be replaced by a value
+		// pointer, however small the value threshold is.
+		return true
+	}
 	return int64(len(e.Value)) < e.valThreshold
 }
 
